@@ -15,9 +15,12 @@ EXPLANATION = (
     "load_from_file before the constructor is propagated with `?`, none unwrapped; the deserialised P,q,A,b,cones "
     "reach the constructor only after a dominating validator whose decision table rejects every violated format / "
     "dimension relation, and the settings are validated; (R4) the dimension part of CscMatrix::check_format accepts a "
-    "matrix only if len(rowval)=len(nzval), len(colptr)=n+1 and colptr[n]=nnz hold as equalities and colptr is monotone.")
+    "matrix only if len(rowval)=len(nzval), len(colptr)=n+1 and colptr[n]=nnz hold as equalities and colptr is monotone, and its "
+    "per-entry part rejects only for a row-order violation inside a column or a row index >= m, each quantified over the stored "
+    "entries (no aggregate with a default), and accepts only after the bound test; (R3s) the settings validator and the LDL "
+    "dispatcher compare the same function of the stored method string.")
 ASSUMPTIONS = ['rustc MIR construction and trait resolution are correct',
-               'serde_json reports malformed / truncated text as Err', 'the per-column part of CscMatrix::check_format (sorted, in-range row indices) is right (C16 territory)']
+               'serde_json reports malformed / truncated text as Err', 'the closures of CscMatrix::check_format mean what they say for every column (index arithmetic of the slices: C16 territory)']
 
 EXPORT = [
     ('lrscale', 'P', ['self.data.equilibration.dinv', 'self.data.equilibration.dinv']),
@@ -259,6 +262,40 @@ def matrix_validator(rep, F, tag):
                 ok = True
         R.check(ok, 'monotone-closure' + tag, 'the colptr monotonicity test is not c[0] > c[1] (%s)' % [canon(g.sym_local(0)) for g in clos], f.loc())
         cf = F.one(name='check_format', adt='CscMatrix')
+        # the per-entry part: a matrix is rejected only for an unsorted / duplicate row index inside a column or a row index
+        # >= m, each a test quantified over the stored entries (an aggregate with a default, e.g. max().unwrap_or(0) >= m,
+        # rejects the valid matrix with no rows); it is accepted only after both tests
+        clos = {canon(g_.sym_local(0)) for g_ in F.closures_of.get(cf.key, [])}
+        sorted_ok = any(re.fullmatch(r'le\(arg2\[1_usize\], arg2\[0_usize\]\)', c_) for c_ in clos)
+        bound_all = any(re.fullmatch(r'lt\(arg2, arg1\._ref__self\.m\)', c_) for c_ in clos)
+        bound_any = any(re.fullmatch(r'le\(arg1\._ref__self\.m, arg2\)', c_) for c_ in clos)
+        n_err = n_okp = 0
+        for val, ret, ev, tr in Walker(cf, cut_loops=True).leaves():
+            if ret[0] != 's':
+                continue
+            r_ = str(ret[1])
+            own = {k: v for k, v in val.items() if not k.startswith('discr(')}
+            if r_.startswith('Result::Err('):
+                n_err += 1
+                known = False
+                for k, v in own.items():
+                    kk = k.replace('withoverflow', '')
+                    if kk.startswith('any(windows(index(self.rowval, Range::Range(index(self.colptr, ') and v == 1 and sorted_ok:
+                        known = True
+                    if kk.startswith('all(iter(self.rowval)') and v == 0 and bound_all:
+                        known = True
+                    if kk.startswith('any(iter(self.rowval)') and v == 1 and bound_any:
+                        known = True
+                    if re.match(r'le\(self\.m, next\((into_iter|iter)\(.*self\.rowval', kk) and v == 1:
+                        known = True
+                R.check(known, 'rejects-only|%s%s' % (r_[12:40], tag),
+                        'check_format returns %s under %s, which is not one of the per-entry tests (row order inside a column, row index < m over all '
+                        'stored entries): a well-formed matrix (e.g. one with no rows or no entries) may be rejected' % (r_, sorted(own)[:2]), cf.loc())
+            elif r_.startswith('Result::Ok'):
+                n_okp += 1
+                has_bound = any((k.startswith('all(iter(self.rowval)') and v == 1 and bound_all) or (k.startswith('any(iter(self.rowval)') and v == 0 and bound_any) for k, v in own.items())
+                R.check(has_bound or not own, 'accepts-after-bound' + tag, 'check_format returns Ok without the row-index bound test (%s)' % sorted(own)[:2], cf.loc()) if own else None
+        R.check(n_err >= 2 and n_okp >= 1, 'format-paths' + tag, 'check_format: %d rejecting and %d accepting paths analysed' % (n_err, n_okp), cf.loc())
         cd = calls_named(cf, 'check_dimensions')
         R.check(len(cd) == 1, 'format-starts-with-dimensions' + tag,
                 'check_format does not call check_dimensions', cf.loc())
@@ -279,6 +316,8 @@ def run(ctx, rep, tier):
         settings_roundtrip(rep, F, tag)
         load_discipline(rep, F, G, tag)
         matrix_validator(rep, F, tag)
+        from . import c04
+        c04.settings_strings(c04._Ren(rep, 'C04.R7b', 'C19.R3s'), F, tag)
     from . import units_rules
     units_rules.c19(ctx, rep)
     from . import primitives
